@@ -521,15 +521,24 @@ package stdlibspec
 //@ extern io.ReadFull(r, buf)
 //@   assigns elems(buf), lastRead
 //@   ensures result1 == nil ==> bytesOf(buf) == lastRead && result0 == len(buf)
+// b64Decoded(enc, s): the bytes DecodeString delivers for s when it succeeds (a name: decoding is a
+// function of the encoding and the text). aesKeyOf / gcmKeyOf: the key a block cipher / an AEAD
+// built over it works with. aes.NewCipher accepts 16, 24 and 32 byte keys only (conformance-tested).
+//@ spec func b64Decoded(enc *base64.Encoding, s string) string
+//@ spec func aesKeyOf(b cipher.Block) string
+//@ spec func gcmKeyOf(g cipher.AEAD) string
 //@ extern (*encoding/base64.Encoding).DecodeString(enc, s)
 //@   pure
 //@   ensures enc == base64.RawStdEncoding ==> (forall x string :: s == b64std(x) ==> result1 == nil && bytesOf(result0) == x)
-//@ extern crypto/aes.NewCipher
+//@   ensures result1 == nil ==> bytesOf(result0) == b64Decoded(enc, s)
+//@ extern crypto/aes.NewCipher(key)
 //@   pure
 //@   ensures result1 == nil ==> result0 != nil
-//@ extern crypto/cipher.NewGCM
+//@   ensures result1 == nil ==> (len(key) == 16 || len(key) == 24 || len(key) == 32) && aesKeyOf(result0) == bytesOf(key)
+//@ extern crypto/cipher.NewGCM(cipher)
 //@   pure
 //@   ensures result1 == nil ==> result0 != nil
+//@   ensures result1 == nil ==> gcmKeyOf(result0) == aesKeyOf(cipher)
 //@ extern context.Background
 //@   pure
 // ctxDeadlineWithin(c, d): context c is cancelled at most d after it was made
